@@ -21,7 +21,8 @@ THEOREMS = [
     "C06_int_roundtrip", "C06_int_print_valid", "C06_int_reject_literal", "C06_int_accept_exact",
     "C06_int_reject_value",
     "C06_boolean", "C06_boolean_reject_literal",
-    "C06_zone_offsets", "C06_zone_out_of_range", "C06_date_roundtrip", "C06_time_roundtrip", "C06_datetime_roundtrip",
+    "C06_zone_offsets", "C06_zone_out_of_range", "C06_zone_subminute_rejected", "C06_zone_whole_minutes",
+    "C06_zone_accepted_is_whole", "C06_date_roundtrip", "C06_time_roundtrip", "C06_datetime_roundtrip",
     "C06_microseconds", "C06_date_reject_literal", "C06_time_reject_literal", "C06_datetime_reject_literal",
     "C06_g_value_spaces", "C06_gyear_roundtrip", "C06_gyearmonth_roundtrip", "C06_gmonthday_roundtrip",
     "C06_gday_roundtrip", "C06_gmonth_roundtrip", "C06_g_reject_literal",
@@ -212,7 +213,26 @@ def sdk_print(v):
 
 
 def mk_tz(t):
-    return None if t is None else datetime.timezone(datetime.timedelta(minutes=t))
+    """t: None, whole minutes (int), or ("us", n) = an offset of n microseconds (what datetime.timezone can hold)"""
+    if t is None:
+        return None
+    if isinstance(t, tuple):
+        return datetime.timezone(datetime.timedelta(microseconds=t[1]))
+    return datetime.timezone(datetime.timedelta(minutes=t))
+
+
+def tz_us(t):
+    """the offset in microseconds (None for no zone)"""
+    return None if t is None else t[1] if isinstance(t, tuple) else t * 60000000
+
+
+def tz_in_space(t):
+    """XSD: whole minutes from -14:00 to +14:00"""
+    u = tz_us(t)
+    return u is None or (u % 60000000 == 0 and abs(u) <= 840 * 60000000)
+
+
+TZ_FIELD = {"Date": 3, "Time": 4, "DateTime": 7, "GYearMonth": 2, "GMonthDay": 2, "GYear": 1, "GDay": 1, "GMonth": 1}
 
 
 def build_value(name, f):
@@ -246,10 +266,19 @@ def build_value(name, f):
     raise AssertionError(name)
 
 
+def model_args_us(name, f):
+    """mode 7 (print with the zone offset in microseconds): fields ++ [flag, offset]"""
+    i = TZ_FIELD[name]
+    u = tz_us(f[i])
+    return list(f[:i]) + ([0, 0] if u is None else [1, u])
+
+
 def model_args(name, f):
     """the integer arguments of mode 1 (print) for model/XsdObs.run_print"""
     def tz(t):
         return [0, 0] if t is None else [1, t]
+    if name in TZ_FIELD and isinstance(f[TZ_FIELD[name]], tuple):
+        return None
     if name in INT_BOUNDS or name == "Boolean":
         return [int(f[0])]
     if name in ("Date",):
@@ -285,12 +314,24 @@ US_EDGE = [0, 0, 1, 9, 10, 99, 100, 4999, 57, 1001, 8191, 16383, 99999, 100000, 
 YEAR_EDGE = [1, 2, 9, 10, 99, 100, 999, 1000, 1900, 1999, 2000, 2020, 2024, 2100, 2400, 9998, 9999]
 
 
+# offsets that are no whole number of minutes: seconds and/or microseconds left over, also just beyond +-14:00
+_SUB_EXTRA = [1, 500, 999999, 1000000, 30000000, 59000000, 59999999, 1000001, 30000500]
+TZ_SUB = sorted({("us", sg * (m * 60000000 + x)) for m in (0, 1, 60, 330, 839, 840, 1439) for x in _SUB_EXTRA
+                 for sg in (1, -1) if m * 60000000 + x < 86400000000}, key=lambda t: t[1])
+# whole-minute offsets given with microsecond resolution (the same values as the int-minute pool)
+TZ_WHOLE_US = [("us", m * 60000000) for m in (0, 1, -1, 60, -570, 840, -840, 841, -841, 1439)]
+
+
 def gen_tz(rng, allow_out=True):
     r = rng.random()
-    if r < 0.55:
+    if r < 0.50:
         return rng.choice(TZ_EDGE)
-    if r < 0.62 and allow_out:
+    if r < 0.57 and allow_out:
         return rng.choice(TZ_OUT)
+    if r < 0.69 and allow_out:
+        return rng.choice(TZ_SUB)
+    if r < 0.73:
+        return rng.choice(TZ_WHOLE_US)
     return rng.randint(-840, 840)
 
 
@@ -440,8 +481,7 @@ def gen_fields(rng, name):
 
 def in_value_space(name, f):
     """independent statement of the XSD value space (within the domain the property quantifies over)"""
-    def tz_ok(t):
-        return t is None or -840 <= t <= 840
+    tz_ok = tz_in_space
     if name in INT_BOUNDS:
         lo, hi = INT_BOUNDS[name]
         return (lo is None or lo <= f[0]) and (hi is None or f[0] <= hi)
@@ -709,6 +749,100 @@ def value_failure(name, f):
     return None
 
 
+# ---------------------------------------------------------------------------------------------
+# the mapping as a FUNCTION: the same literal / value gives the same result whenever it is presented, whatever was
+# parsed, printed or edited in between (no state kept between calls, no result shared between callers)
+
+MUTABLE = ("HexBinary", "Base64Binary", "Duration", "GYearMonth", "GYear", "GMonthDay", "GDay", "GMonth")
+
+
+def mutate_in_place(name, v):
+    """edit a value object the way a client holding it may; returns False for the immutable types"""
+    if name in ("HexBinary", "Base64Binary"):
+        v.extend(b"-edited")
+    elif name == "Duration":
+        v.years += 1
+        v.seconds = -v.seconds if v.seconds else 7
+    elif name in ("GYearMonth", "GYear"):
+        v.year = v.year % 9000 + 1
+        v.tzinfo = None if v.tzinfo is not None else datetime.timezone.utc
+    elif name == "GMonthDay":
+        v.month, v.day = v.month % 12 + 1, 1
+    elif name == "GDay":
+        v.day = v.day % 28 + 1
+    elif name == "GMonth":
+        v.month = v.month % 12 + 1
+    else:
+        return False
+    return True
+
+
+def fresh_copy(name, v):
+    """a new object with the present state of v, built through the constructor"""
+    d = D()
+    c = cls_of(name)
+    if name in ("HexBinary", "Base64Binary"):
+        return c(bytes(v))
+    if name == "Duration":
+        return d.Duration(years=v.years, months=v.months, days=v.days, hours=v.hours, minutes=v.minutes,
+                          seconds=v.seconds, microseconds=v.microseconds)
+    if name == "GYearMonth":
+        return c(v.year, v.month, v.tzinfo)
+    if name == "GYear":
+        return c(v.year, v.tzinfo)
+    if name == "GMonthDay":
+        return c(v.month, v.day, v.tzinfo)
+    if name == "GDay":
+        return c(v.day, v.tzinfo)
+    if name == "GMonth":
+        return c(v.month, v.tzinfo)
+    return v
+
+
+def parse_twice_failure(name, lit, others=()):
+    """from_xsd(lit, T) - edit the result in place - parse `others` - from_xsd(lit, T) again: the second result must
+    be what the first one was.  Returns a message or None."""
+    obs1, v1, _ = sdk_parse(name, lit)
+    if v1 is not None:
+        mutate_in_place(name, v1)
+    for n2, l2 in others:
+        sdk_parse(n2, l2)
+    obs2, v2, _ = sdk_parse(name, lit)
+    if obs1[:1] == [99]:
+        obs1 = obs1[:1]
+    if obs2[:1] == [99]:
+        obs2 = obs2[:1]
+    if obs1 != obs2:
+        return (f"from_xsd({lit!r}, {name}) depends on earlier calls: first {('a value', 'ValueError', 'TypeError')[obs1[0]] if obs1[0] < 3 else 'an error'}"
+                f" {obs1[1:12]}, then (after the first result was edited in place) {v2!r} {obs2[1:12]}")
+    return None
+
+
+def print_twice_failure(name, f):
+    """xsd_repr(v) - edit v in place - xsd_repr(v): the second text must be the text of the edited value (= the text of a
+    fresh object with the same state); and printing an equal fresh value afterwards gives the first text again."""
+    try:
+        v = build_value(name, f)
+    except Exception:  # noqa
+        return None
+    obs1, s1 = sdk_print(v)
+    obs1b, _ = sdk_print(v)
+    if obs1 != obs1b:
+        return f"xsd_repr({v!r}) gave {s1!r} and then another result for the same unchanged value"
+    if mutate_in_place(name, v):
+        try:
+            want, sw = sdk_print(fresh_copy(name, v))
+        except Exception:  # noqa
+            return None
+        got, sg = sdk_print(v)
+        if got != want:
+            return f"xsd_repr of a {name} edited in place gives {sg!r} {got[:1]}, a fresh object in the same state gives {sw!r} {want[:1]}"
+    obs3, s3 = sdk_print(build_value(name, f))
+    if obs3 != obs1:
+        return f"xsd_repr of {name}{tuple(f)!r} gave {s1!r} first and {s3!r} for an equal value later"
+    return None
+
+
 def trivial_cast_failure(name, f):
     """trivial_cast(plain Python value, T) yields an equal value of type T, or ValueError outside the value space"""
     d = D()
@@ -731,6 +865,228 @@ def trivial_cast_failure(name, f):
     if type(v) is not cls_of(name) or v != plain:
         return f"trivial_cast({plain!r}, {name}) = {v!r} of type {type(v).__name__}"
     return None
+
+
+# ---------------------------------------------------------------------------------------------
+# typed holders: Property / Range / Qualifier / Extension keep a value together with its value_type; whatever history of
+# assignments, re-typings and refused operations an object has been through, what it announces and what it holds must
+# go together: the value is of the announced type, its literal is valid for that type and reads back as the value.
+
+HOLDERS = ("Property", "Range", "Qualifier", "Extension")
+FAMILIES = [[n for n in INT_BOUNDS], ["String", "AnyURI", "NormalizedString"], ["HexBinary", "Base64Binary"],
+            ["Float", "Double", "Decimal"], ["Date", "DateTime", "Time"], ["GYear", "GYearMonth", "GMonth", "GMonthDay", "GDay"],
+            ["Boolean", "Integer", "UnsignedByte"]]
+PLAIN_POOL = ["0", "1", "-1", "5", "127", "128", "255", "256", "70000", "-70000", "2**31", "2**63", "-2**63 - 1", "2**64",
+              "True", "False", "1.5", "0.0", "-0.0", "float('nan')", "float('inf')", "1e39", "''", "'abc'", "'two\\nlines'",
+              "'a\\tb'", "' x '", "b''", "b'abc'", "bytearray(b'xy')", "datetime.date(2020, 2, 29)",
+              "datetime.datetime(2020, 2, 29, 12, 30, 15, 250000)", "datetime.time(12, 30)",
+              "datetime.datetime(2020, 1, 1, tzinfo=datetime.timezone.utc)", "decimal.Decimal('1.50')", "decimal.Decimal('NaN')",
+              "None"]
+_EVAL_ENV = {"datetime": datetime, "decimal": decimal, "Decimal": decimal.Decimal, "nan": math.nan, "inf": math.inf,
+             "__builtins__": {"float": float, "bytearray": bytearray, "True": True, "False": False, "None": None}}
+
+
+def type_name_of(cls):
+    for _, n, _ in TYPES:
+        if cls_of(n) is cls:
+            return n
+    return None
+
+
+def gen_valid_fields(rng, name):
+    for _ in range(50):
+        f = gen_fields(rng, name)
+        try:
+            if in_value_space(name, f) and in_domain(name, f):
+                v = build_value(name, f)
+                if not (name == "Decimal" and not v.is_finite()):
+                    return f
+        except Exception:  # noqa
+            pass
+    return None
+
+
+def gen_holder_value(rng, name):
+    """descriptor of a value offered to a holder announcing `name`: a valid value of that type, of a related or of any
+    other type, or a plain Python value"""
+    r = rng.random()
+    if r < 0.35:
+        tn = name
+    elif r < 0.6:
+        fam = [f for f in FAMILIES if name in f]
+        tn = rng.choice(rng.choice(fam)) if fam else name
+    elif r < 0.7:
+        tn = rng.choice(TYPES)[1]
+    else:
+        return {"plain": rng.choice(PLAIN_POOL)}
+    f = gen_valid_fields(rng, tn)
+    return {"plain": "None"} if f is None else {"t": tn, "f": repr(f)}
+
+
+def holder_value(desc):
+    if "plain" in desc:
+        return eval(desc["plain"], dict(_EVAL_ENV))
+    return build_value(desc["t"], eval(desc["f"], dict(_EVAL_ENV)))
+
+
+def gen_holder_script(rng):
+    kind = rng.choice(HOLDERS)
+    name = rng.choice(TYPES)[1]
+    script = [("new", name, gen_holder_value(rng, name))]
+    cur = name
+    for _ in range(rng.choice([1, 1, 2, 2, 3, 4])):
+        if rng.random() < 0.5:
+            fam = [f for f in FAMILIES if cur in f]
+            nxt = rng.choice(rng.choice(fam)) if fam and rng.random() < 0.7 else rng.choice(TYPES)[1]
+            script.append(("type", nxt, None))
+            cur = nxt            # (if the re-typing is refused the object keeps its type; the generator need not know)
+        else:
+            slot = rng.choice(["min", "max"]) if kind == "Range" else "value"
+            script.append((slot, None, gen_holder_value(rng, cur)))
+    return kind, script
+
+
+def object_in_value_space(tname, val):
+    """the XSD value space, decided on a value object (cf. in_value_space on fields)"""
+    if tname == "Decimal":
+        return val.is_finite()
+    if tname == "Duration":
+        nz = [x for x in (val.years, val.months, val.days, val.hours, val.minutes, val.seconds, val.microseconds) if x]
+        return all(x > 0 for x in nz) or all(x < 0 for x in nz)
+    if tname in TZ_FIELD:
+        tzinfo = getattr(val, "tzinfo", None)
+        if tzinfo is None:
+            return True
+        off = tzinfo.utcoffset(None)
+        if off is None:
+            return True
+        us = (off.days * 86400 + off.seconds) * 1000000 + off.microseconds
+        return us % 60000000 == 0 and abs(us) <= 840 * 60000000
+    return True
+
+
+def holder_state_failure(kind, h):
+    """is what the object announces consistent with what it holds and with what it serialises?"""
+    from basyx.aas.adapter.json import AASToJsonEncoder
+    d = D()
+    vt = h.value_type
+    slots = [("min", h.min), ("max", h.max)] if kind == "Range" else [("value", h.value)]
+    if vt is None:
+        bad = [sl for sl, val in slots if val is not None]
+        return f"{kind} holds a {bad[0]} without a value_type" if bad else None
+    tname = type_name_of(vt)
+    if tname is None:
+        return f"{kind}.value_type is {vt!r}, none of the XSD types"
+    xs = dict((n, x) for _, n, x in TYPES)[tname]
+    lits = {}
+    for sl, val in slots:
+        if val is None:
+            continue
+        if not isinstance(val, vt) or (isinstance(val, bool) and vt is not bool):
+            return f"{kind} announces xs:{xs} but its {sl} is the {type(val).__name__} {val!r}"
+        try:
+            lit = d.xsd_repr(val)
+        except ValueError as e:
+            if not object_in_value_space(tname, val):
+                continue         # a Python value outside the XSD value space: refused when it is to be written
+            return f"{kind} announces xs:{xs}; its {sl} {val!r} cannot be written: ValueError: {e}"
+        except Exception as e:  # noqa
+            return f"{kind} announces xs:{xs}; its {sl} {val!r} cannot be written: {type(e).__name__}: {e}"
+        if not py_valid(tname, lit):
+            return f"{kind} announces xs:{xs} but its {sl} {val!r} is written as {lit!r}, no literal of that type"
+        try:
+            back = d.from_xsd(lit, vt)
+        except Exception as e:  # noqa
+            return f"{kind} announces xs:{xs}; the literal {lit!r} of its {sl} cannot be read with that type: {type(e).__name__}"
+        if not values_equal(tname, back, val):
+            return f"{kind} announces xs:{xs}; its {sl} {val!r} is written as {lit!r}, which reads back as {back!r}"
+        lits[sl] = lit
+    unwritable = [sl for sl, val in slots if val is not None and sl not in lits]
+    try:
+        doc = json.loads(json.dumps(h, cls=AASToJsonEncoder))
+    except ValueError as e:
+        if unwritable:
+            return None
+        return f"{kind} (xs:{xs}) cannot be serialised: ValueError: {e}"
+    except Exception as e:  # noqa
+        return f"{kind} (xs:{xs}) cannot be serialised: {type(e).__name__}: {e}"
+    if unwritable:
+        return f"{kind} (xs:{xs}) serialises although its {unwritable[0]} is outside the value space: {doc}"
+    if doc.get("valueType") != "xs:" + xs:
+        return f"{kind} announces xs:{xs} but serialises valueType {doc.get('valueType')!r}"
+    for sl, _ in slots:
+        if doc.get(sl) != lits.get(sl):
+            return f"{kind} (xs:{xs}) serialises {sl}={doc.get(sl)!r}, expected {lits.get(sl)!r}"
+    return None
+
+
+def run_holder_script(kind, script):
+    """returns (message or None, number of operations executed, number refused)"""
+    from basyx.aas import model
+    h = None
+    refused = 0
+    for i, (op, tname, desc) in enumerate(script):
+        expected = (ValueError, TypeError, model.AASConstraintViolation)
+        try:
+            x = holder_value(desc) if desc is not None else None
+        except Exception:  # noqa
+            return None, i, refused
+        try:
+            if op == "new":
+                T = cls_of(tname)
+                h = {"Property": lambda: model.Property("p", T, x), "Range": lambda: model.Range("r", T, x, None),
+                     "Qualifier": lambda: model.Qualifier("q", T, x), "Extension": lambda: model.Extension("e", T, x)}[kind]()
+            elif op == "type":
+                h.value_type = cls_of(tname)
+            else:
+                setattr(h, op, x)
+                got = getattr(h, op)
+                same = got is x or (got == x and not (got != x)) or (isinstance(x, float) and isinstance(got, float)
+                                                                      and math.isnan(x) and math.isnan(got))
+                if isinstance(x, bool) != isinstance(got, bool):
+                    same = False
+                if not same:
+                    return (f"step {i}: {kind}.{op} = {x!r} (announcing {h.value_type.__name__}) was accepted but the object "
+                            f"now holds {got!r}: the value was coerced"), i + 1, refused
+        except expected:
+            refused += 1
+            if h is None:
+                return None, i + 1, refused
+        except Exception as e:  # noqa
+            return f"step {i}: {op} raised {type(e).__name__}: {e}", i + 1, refused
+        msg = holder_state_failure(kind, h)
+        if msg:
+            return f"after step {i} ({op}{' ' + tname if tname else ''}{' ' + str(desc) if desc else ''}): {msg}", i + 1, refused
+    return None, len(script), refused
+
+
+def shrink_holder_script(kind, script):
+    cur = list(script)
+    changed = True
+    while changed:
+        changed = False
+        for i in range(1, len(cur)):
+            cand = cur[:i] + cur[i + 1:]
+            if run_holder_script(kind, cand)[0]:
+                cur, changed = cand, True
+                break
+    return cur
+
+
+def holder_stream(chk, rng, n):
+    for _ in range(n):
+        kind, script = gen_holder_script(rng)
+        msg, nops, refused = run_holder_script(kind, script)
+        chk.seen(("holder", kind, repr(script)), nontrivial=nops >= 2)
+        chk.count("holder:" + kind)
+        chk.count("holder-ops", nops)
+        chk.count("holder-refused", refused)
+        if msg:
+            small = shrink_holder_script(kind, script)
+            msg = run_holder_script(kind, small)[0]
+            chk.fail(f"C06:holder-inconsistent:{kind}", msg,
+                     {"kind": "holder", "holder": kind, "script": [list(st) for st in small],
+                      "how": "tools/c06.py run_holder_script(holder, script)"})
 
 
 def run(chk):
@@ -798,6 +1154,8 @@ def run(chk):
             corpus_cases.append(json.load(open(os.path.join(corpus, fn))))
 
     printed = {n: [] for _, n, _ in TYPES}
+    printed_values = []      # (type, fields, observation of the first xsd_repr)
+    parsed = []              # (type, literal, observation of the first from_xsd, the value object)
     for tid, name, xs in TYPES:
         # ---------------- values: constructor, print, round trip
         for k in range(n_values):
@@ -831,6 +1189,16 @@ def run(chk):
                 args = model_args(name, f)
                 if name in MODEL_PRINT and args is not None and not (name == "Decimal" and not f[0].is_finite()):
                     add(case_term(1, tid, "", args, obs), ("print", name, f))
+                if name in TZ_FIELD:
+                    add(case_term(7, tid, "", model_args_us(name, f), obs), ("print-us", name, f))
+                    chk.count("zone:" + ("none" if f[TZ_FIELD[name]] is None else "whole-minute" if tz_us(f[TZ_FIELD[name]]) % 60000000 == 0
+                                         else "sub-minute"))
+                printed_values.append((name, f, obs))
+                if name in MUTABLE or k % 4 == 0:
+                    msg = print_twice_failure(name, f)
+                    chk.count("print-twice")
+                    if msg:
+                        chk.fail(f"C06:print-not-a-function:{name}", msg, {"kind": "print-twice", "type": name, "fields": repr(f)})
                 if s is not None:
                     printed[name].append(s)
                     if len(chk.samples) < 8 and k == 3:
@@ -861,10 +1229,42 @@ def run(chk):
                          {"kind": "literal", "type": name, "literal": small, "how": "tools/c06.py literal_failure(type, literal)"})
             if obs[0] == 99:
                 obs = [99]
+            parsed.append((name, lit, obs, v))
             if name in MODEL_PARSE:
                 add(parse_case(tid, lit, obs), ("parse", name, lit))
             if name in MODEL_VALID:
                 add(valid_case(tid, lit, ok), ("valid", name, lit))
+
+    # ---- the mapping is a function: every literal and every value a second time, in the opposite order, after the
+    # results of the first pass have been edited in place by their holders
+    for name, lit, obs, v in parsed:
+        if v is not None:
+            mutate_in_place(name, v)
+    nrep = 0
+    for name, lit, obs1, v in reversed(parsed):
+        obs2 = sdk_parse(name, lit)[0]
+        if obs2[:1] == [99]:
+            obs2 = [99]
+        nrep += 1
+        if obs2 != obs1:
+            others = [(n2, l2) for n2, l2, _, _ in parsed[:3]]
+            msg = parse_twice_failure(name, lit) or parse_twice_failure(name, lit, others) or \
+                f"from_xsd({lit!r}, {name}) gave {obs1[:12]} in the first pass and {obs2[:12]} in the second"
+            chk.fail(f"C06:parse-not-a-function:{name}", msg, {"kind": "parse-twice", "type": name, "literal": lit})
+    for name, f, obs1 in reversed(printed_values):
+        try:
+            obs2 = sdk_print(build_value(name, f))[0]
+        except Exception as e:  # noqa
+            obs2 = enc_exc(e)
+        nrep += 1
+        if obs2 != obs1:
+            chk.fail(f"C06:print-not-a-function:{name}", f"xsd_repr of {name}{tuple(f)!r} gave {obs1[:12]} in the first pass and "
+                     f"{obs2[:12]} in the second", {"kind": "print-twice", "type": name, "fields": repr(f)})
+    chk.cov["second_pass_repetitions"] = nrep
+    chk.evaluations += nrep
+
+    # ---- values held by typed objects (Property, Range, Qualifier, Extension): value and value_type stay consistent
+    holder_stream(chk, rng, 400 if quick else 6000)
 
     # ---- the PrimFloat model of the pre-repair expression int(float(frac) * 1e6) against CPython's floats
     for k in range(150 if quick else 3000):
@@ -925,14 +1325,19 @@ def run(chk):
     chk.assumptions = ["float(repr(f)) == f and the shape of repr(f) for finite binary64 f (CPython, documented)",
                        "str <-> UTF-8 bytes; lone surrogates are not generated",
                        "CPython's 4300-digit limit of int<->str conversions is not modelled",
-                       "tzinfo objects are fixed-offset datetime.timezone instances with whole-minute offsets"]
+                       "tzinfo objects are fixed-offset datetime.timezone instances (any offset with microsecond resolution)"]
     return chk.finish(
         level="proof",
         rule="per type (31): seeded values from both sides of every boundary of the value space (integer bounds +-1, "
              "month/day/hour/zone/microsecond edges, mixed-sign durations, decimals of exponent -60..60, random binary64 "
              "incl. subnormals/NaN/INF, byte strings of length 0..24) -> constructor, xsd_repr, from_xsd; candidate "
              "literals: printed forms, XSD-legal respellings, 1-3 character mutations, a fixed list of exotic spellings, "
-             "random strings over a small alphabet; distinct by (type, value) / (type, literal); non-trivial = non-empty")
+             "random strings over a small alphabet; zone offsets: whole minutes -14:00..+14:00 and beyond, and offsets with "
+             "seconds/microseconds left over (also 1 us beyond +-14:00); every literal and value a second time in reverse "
+             "order after the first results were edited in place (the mapping as a function); seeded histories of "
+             "Property/Range/Qualifier/Extension objects (construct, assign, re-type, refused operations) with the "
+             "announced type checked against the held and the serialised value after every step; "
+             "distinct by (type, value) / (type, literal) / (holder, script); non-trivial = non-empty / at least 2 steps")
 
 
 # ---------------------------------------------------------------------------------------------
@@ -957,6 +1362,19 @@ def sweep_sdk(chk, full):
                 chk.fail(f"C06:roundtrip:{name}", f"zone offset {off} min: {s!r} does not round-trip",
                          {"kind": "value", "type": name, "offset_minutes": off})
     chk.cov["sdk_zone_offsets"] = n
+    # every offset of the sub-minute pool (seconds / microseconds left over, also just beyond +-14:00) on all eight types
+    # that carry a zone: outside the value space, so it must be refused - never written, never truncated
+    n = 0
+    for t in TZ_SUB:
+        for name, f in (("Date", [2000, 2, 29, t]), ("Time", [23, 59, 59, 999999, t]), ("DateTime", [2020, 1, 24, 15, 25, 17, 0, t]),
+                        ("GYear", [2020, t]), ("GYearMonth", [2020, 5, t]), ("GMonthDay", [2, 29, t]), ("GDay", [31, t]),
+                        ("GMonth", [12, t])):
+            n += 1
+            fail = value_failure(name, f)
+            if fail:
+                chk.fail(f"C06:{fail[0]}:{name}", fail[1], {"kind": "value", "type": name, "fields": repr(f),
+                                                            "how": "tools/c06.py value_failure(type, fields)"})
+    chk.cov["sdk_subminute_offsets"] = n
     # every month/day pair
     n = 0
     for m in range(0, 14):
@@ -1012,6 +1430,19 @@ def replay(path):
         except (ValueError, OverflowError):
             print("oracle: refused")
             return 0
+    if rp.get("kind") == "parse-twice":
+        msg = parse_twice_failure(rp["type"], rp["literal"]) or parse_twice_failure(rp["type"], rp["literal"], [("Int", "5"), ("String", "x")])
+        print("oracle:", msg)
+        return 1 if msg else 0
+    if rp.get("kind") == "print-twice":
+        f = eval(rp["fields"], {"Decimal": decimal.Decimal, "nan": math.nan, "inf": math.inf})
+        msg = print_twice_failure(rp["type"], f)
+        print("oracle:", msg)
+        return 1 if msg else 0
+    if rp.get("kind") == "holder":
+        msg = run_holder_script(rp["holder"], [tuple(st) for st in rp["script"]])[0]
+        print("oracle:", msg)
+        return 1 if msg else 0
     if rp.get("trivial_cast"):
         f = eval(rp["fields"], {"Decimal": decimal.Decimal, "nan": math.nan, "inf": math.inf})
         res = trivial_cast_failure(rp["type"], f)
